@@ -60,6 +60,7 @@ BOUNDED = {
     "graph_build": _misc("check_graph_build", "random node tables <= 5 nodes + <= 2 DAG inputs with positional / keyword / activation references in any direction (cycles included), setup / debug flags and tags, seed {seed}: the real DiGraphEx.from_exec_nodes against an independent oracle (refusals, nodes, edges, tables, compound priorities)", dict(n_cases=300), dict(n_cases=5000)),
     "operator_table": _misc("check_operator_table", "finite domain, exhaustive: every binary operator of Python's data model in forward / reflected / node-node form, the six comparisons, the four unary operators, on order-recording probe values, + 6 order-sensitive builtin operand pairs (str, list, tuple, dict, int)"),
     "id_strings": _misc("check_id_strings", "random programs, seed {seed}: <= 3 decorated functions with realistic but awkward qualified names (dots, '<locals>', '<lambda>', digits, prefixes of each other, DAG names equal to function names), each reused up to 6 call sites with positional / keyword constants, nesting depth <= 2 with clashing DAG names: value and per-function execution counts against the plain evaluation (the string-level facts the proofs assume about generated ids)", dict(n_cases=120), dict(n_cases=1500)),
+    "default_identity": _misc("check_default_identity", "deterministic: a sentinel default tested with `is` and a mutable default appended to in place over three calls, DAG and AsyncDAG, against the plain function"),
     "profile": _misc("check_profile", "finite domain, complete: Profile(active in {True, False}).__exit__ with and without an exception"),
     "programs": _prog("check_equivalence", 250, 4000, "{n} random describing functions (<= 5 statements, nesting depth <= 2, all argument / flag / return forms of the supported fragment), seed {seed}: DAG and AsyncDAG value and per-call-site execution counts against ONE interpreter run with the plain callables; re-run after config_from_dict and a second call"),
     "programs_flat": _prog("check_equivalence", 150, 2000, "{n} random flat describing functions (no nesting), seed {seed}", nested=False),
